@@ -6,7 +6,7 @@ from xml.etree import ElementInclude as xinclude
 from xml.etree import ElementTree as etree
 
 from xsdata.exceptions import XmlHandlerError
-from xsdata.formats.dataclass.parsers.mixins import XmlHandler
+from xsdata.formats.dataclass.parsers.mixins import XmlHandler, delay_end_events
 from xsdata.models.enums import EventType
 from xsdata.utils import namespaces
 
@@ -57,7 +57,7 @@ class XmlEventHandler(XmlHandler):
             An instance of the class type representing the parsed content.
         """
         element_ns_map: dict = {}
-        for event, element in context:
+        for event, element in delay_end_events(context):
             if event == EventType.START:
                 self.parser.start(
                     self.clazz,
